@@ -187,6 +187,9 @@ func checkTB(tb tb, deadline time.Time, prop func(*T)) {
 	checks := flags.checks
 	if testing.Short() {
 		checks /= 5
+		if checks == 0 && flags.checks > 0 {
+			checks = 1 // -short makes a check cheaper, it does not turn it into a no-op
+		}
 	}
 
 	start := time.Now()
